@@ -963,6 +963,9 @@ def _replay_sigs(case):
 
 
 def replay(case):
+    if case.get("leg") == "special":
+        from checks import c16_special
+        return c16_special.replay(case)
     found = _replay_sigs(case)
     for what in found.values():
         return what
@@ -1143,6 +1146,8 @@ def run(tier):
     fold_violations(report)
     leg_string_bounds(report)
     leg_imported_typevar(report)
+    from checks import c16_special
+    c16_special.run(report)
     return report
 
 
